@@ -22,8 +22,10 @@ CONF = {
         {"module": "MC_QuotaTopology", "cfg": {"quick": None, "thorough": "MC_ns.cfg"}, "timeout": 1800},
     ],
     "gen": [
-        {"module": "Gen_QuotaTopology", "cfg": {"quick": "Gen_quick.cfg", "thorough": "Gen_thorough.cfg"}, "timeout": 1200},
-        {"module": "Gen_QuotaTopology", "cfg": {"quick": "Gen_quick2.cfg", "thorough": "Gen_thorough2.cfg"}, "timeout": 1200},
+        {"module": "Gen_QuotaTopology", "cfg": {"quick": "Gen_quick.cfg", "thorough": "Gen_thorough.cfg"}, "timeout": 1200,
+         "sample": {"quick": 1, "thorough": 3}},
+        {"module": "Gen_QuotaTopology", "cfg": {"quick": "Gen_quick2.cfg", "thorough": "Gen_thorough2.cfg"}, "timeout": 1200,
+         "sample": {"quick": 1, "thorough": 4}},
         {"module": "Gen_QuotaTopology", "cfg": "Gen_sim.cfg", "simulate": {"quick": "num=200", "thorough": "num=3000"},
          "depth": 13, "timeout": 600},
     ],
